@@ -50,6 +50,10 @@ type Scen struct {
 	// CopyLocks: besides request arrivals, schedules also branch at every mutex acquisition made by
 	// the copy's own bookkeeping (functions of the root package: the seen-map, the final-function list)
 	CopyLocks bool `json:"copy_locks,omitempty"`
+	// Warm: the client (response cache on, as the command line tools configure it) was used before the
+	// copy: "list-filtered" = the referrers of the source image were listed with an artifact-type
+	// filter, "list" = without one, "head" = the source manifest was looked at
+	Warm string `json:"warm,omitempty"`
 }
 
 func (s Scen) String() string {
@@ -68,6 +72,9 @@ func (s Scen) String() string {
 	}
 	if s.CopyLocks {
 		d += " copy-locks"
+	}
+	if s.Warm != "" {
+		d += " warm=" + s.Warm
 	}
 	return fmt.Sprintf("%s %s opt=%s feat=%s pre=%s%s", s.Graph, s.Pair, s.Opt, s.Feat, s.Pre, d)
 }
@@ -165,6 +172,10 @@ func features(sc Scen) modelreg.Features {
 	}
 	if sc.Pair == "same-reg-refuse" {
 		f.Mount = "refuse"
+	}
+	if sc.Warm != "" {
+		// the registry applies the artifactType filter of a referrers request itself (OCI-Filters-Applied)
+		f.ReferrersFilt = true
 	}
 	return f
 }
@@ -431,7 +442,7 @@ func Run(t *testing.T, c *explore.Ctx, sc Scen, p Params, scratchRoot string) (*
 		if os.Getenv("VERIF_TRACE") != "" {
 			ro.Slog = slog.New(slog.NewTextHandler(os.Stdout, &slog.HandlerOptions{Level: slog.LevelDebug}))
 		}
-		if sc.Retry {
+		if sc.Retry || sc.Warm != "" {
 			ro.RegOpts = []reg.Opts{reg.WithCache(5*time.Minute, 500)}
 		}
 		if sc.Mirrors {
@@ -458,6 +469,14 @@ func Run(t *testing.T, c *explore.Ctx, sc Scen, p Params, scratchRoot string) (*
 		x.Cancel = cancel
 		defer cancel()
 		body := func() {
+			switch sc.Warm {
+			case "list-filtered":
+				_, _ = rc.ReferrerList(ctx, x.Src, scheme.WithReferrerMatchOpt(descMatchSig()))
+			case "list":
+				_, _ = rc.ReferrerList(ctx, x.Src)
+			case "head":
+				_, _ = rc.ManifestHead(ctx, x.Src)
+			}
 			x.Err = rc.ImageCopy(ctx, x.Src, x.Tgt, copyOpts(sc)...)
 			// closing releases layout locks and runs GC if enabled (default off)
 			_ = rc.Close(ctx, x.Tgt)
